@@ -124,6 +124,28 @@ CHECKS = {
         "Programs are a fixed family of 6 classes x 3 option sets; validators only read fields.",
         design="4/C10",
     ),
+    "C15": dict(
+        text="with_fields_set dataclasses (plain with default_as_set, decorated child of an undecorated base, undecorated "
+        "child of a decorated base, InitVar + init=False + __post_init__) are created by deserialize (key presence "
+        "symbolic), keyword or positional construction, then driven through every sequence of <= 2 (quick) / 3 (thorough) "
+        "operations among set_fields, set_fields(overwrite), unset_fields, attribute assignment, apischema.dataclasses."
+        "replace on every field; after each step fields_set() must equal the set-algebra model, serialize must emit "
+        "exactly the set fields and exclude_unset=False all of them, with the current values.",
+        note="Operation kinds and field indices are forked (enumerated); values and key presence are symbolic. The set of an "
+        "undecorated child is only required to contain the model set (the statement does not pin it).",
+        design="4/C15",
+    ),
+    "C16": dict(
+        text="Unit: apischema.ordering.sort_by_order on n <= 3 (quick) / 4 (thorough) elements whose ordering spec is "
+        "forked among none, order(v) with v in {-1, 0, 1, 999}, after(x), before(x) for every other x, under no / mapping "
+        "/ sequence / inherited class-level overrides; result must be a permutation (nothing lost or duplicated) equal to "
+        "the documented placement algorithm. Call sites: for classes generated from the same specs, key order of "
+        "serialize, properties order of both JSON schemas and GraphQL field order equal the reference permutation.",
+        note="Every dimension here is a program: order values are hashed by the code, so the space is enumerated by forks; "
+        "the call-site variant runs concretely under NoTracing. Cyclic after/before chains are assumed away.",
+        design="4/C16",
+        technique="bounded exhaustive enumeration driven by the CrossHair fork tree (no symbolic value): stated as such",
+    ),
 }
 
 NOT_YET = "check not built yet at this commit (work in progress, see DESIGN.md section 4)"
